@@ -145,7 +145,7 @@ impl C13 {
         };
         let mut extra = |w: &mut World, ctx: &mut Ctx| -> Outcome {
             let d = pick_dir(&mut ctx.src, w);
-            match ctx.src.below(3) {
+            match ctx.src.below(4) {
                 0 => {
                     // burst of tiny messages in one tick (worst id/length overhead per payload byte)
                     let ch = pick_chan(&mut ctx.src, w, d);
@@ -183,6 +183,19 @@ impl C13 {
                     }
                     ctx.label("gap_burst");
                     ctx.op(&("gap_burst", d.client, d.to_client, ch, n, jump));
+                }
+                3 => {
+                    // one message a little above one slice - around what would still fit one carrier if it travelled whole - alone
+                    // or behind a few tiny ones, on any kind of channel
+                    let ch = pick_chan(&mut ctx.src, w, d);
+                    let len = if ctx.src.chance(160) { 1280 + ctx.src.below(22) } else { 1201 + ctx.src.below(120) };
+                    let tiny = ctx.src.pick(&[0usize, 0, 1, 3]);
+                    for _ in 0..tiny {
+                        w.send(d, ch, 1, true, 0)?;
+                    }
+                    w.send(d, ch, len, true, 0)?;
+                    ctx.label("just_above_one_slice");
+                    ctx.op(&("just_above_one_slice", d.client, d.to_client, ch, len, tiny));
                 }
                 _ => {
                     // descending arrival of separately flushed packets
@@ -286,7 +299,7 @@ impl Property for C13 {
         "exploration"
     }
     fn rule(&self) -> String {
-        "Cases: (a) renet pair with counter presets (hooks) on packet sequences, reliable message ids and unreliable sliced ids at varint width boundaries (62/63, 16382/16383, 2^30-2/2^30-1, 2^40, 2^62-2000000), message lengths 1185-1201 mixed with bursts of 50-2000 messages of 0-8 bytes in one tick, sliced messages, and receive patterns that maximise the ack list (every other packet lost, descending arrival, sequence jumps of 2^14 / 2^31 between packets), under the generic fault driver; every renet packet emitted is also passed through generate_payload_packet of a connected netcode pair whose sequences are preset to every byte width; (b) netcode pair: payload lengths 0..1300, 1301, 1400, sequences of every width, keep-alive / disconnect / handshake datagrams. Oracles: every get_packets_to_send element <= 1300 bytes, no PacketSerialization disconnect, generate_payload_packet never refuses a renet packet nor a payload <= 1300 and refuses larger ones, every netcode datagram <= 1400. Non-trivial: an 8-byte varint id or sequence together with a packet filled by >= 100 tiny messages, or an ack packet with >= 60 ranges, or a payload at the 1300-byte limit. Distinct = hash of the decoded operation trace.".into()
+        "Cases: (a) renet pair with counter presets (hooks) on packet sequences, reliable message ids and unreliable sliced ids at varint width boundaries (62/63, 16382/16383, 2^30-2/2^30-1, 2^40, 2^62-2000000), message lengths 1185-1201 and 1201-1320 (a little above one slice, around what would still fit one carrier) mixed with bursts of 50-2000 messages of 0-8 bytes in one tick, sliced messages, and receive patterns that maximise the ack list (every other packet lost, descending arrival, sequence jumps of 2^14 / 2^31 between packets), under the generic fault driver; every renet packet emitted is also passed through generate_payload_packet of a connected netcode pair whose sequences are preset to every byte width; (b) netcode pair: payload lengths 0..1300, 1301, 1400, sequences of every width, keep-alive / disconnect / handshake datagrams. Oracles: every get_packets_to_send element <= 1300 bytes, no PacketSerialization disconnect, generate_payload_packet never refuses a renet packet nor a payload <= 1300 and refuses larger ones, every netcode datagram <= 1400. Non-trivial: an 8-byte varint id or sequence together with a packet filled by >= 100 tiny messages, or an ack packet with >= 60 ranges, or a payload at the 1300-byte limit. Distinct = hash of the decoded operation trace.".into()
     }
     fn assumptions(&self) -> Vec<String> {
         vec!["counter presets stand for long-running sessions (2^62 packets cannot be sent in a test); values stay below 2^62-1, the varint limit".into()]
@@ -295,7 +308,7 @@ impl Property for C13 {
         PbtCfg { cases: tier.pick(2_500, 10_000), max_len: tier.pick(1500, 3000), shrink_ms: 120_000 }
     }
     fn required_labels(&self) -> Vec<&'static str> {
-        vec!["wide_varint", "full_packet_tiny_messages", "ack_60_ranges", "renet_packet_near_limit", "payload_at_limit", "netcode_case", "gap_burst", "descending_arrival", "tiny_burst"]
+        vec!["wide_varint", "full_packet_tiny_messages", "ack_60_ranges", "renet_packet_near_limit", "payload_at_limit", "netcode_case", "gap_burst", "descending_arrival", "tiny_burst", "just_above_one_slice"]
     }
     fn run_choices(&self, ctx: &mut Ctx) -> Outcome {
         if ctx.src.chance(50) {
